@@ -52,7 +52,7 @@ def cases(seed, tier):
     out = [{'seed': seed, 'i': i, 'kind': 'plant', 'tier': tier} for i in range(N_PLANT[tier])]
     nm = 60 if tier == 'quick' else 1500
     out += [{'seed': seed, 'i': i, 'kind': 'missing', 'tier': tier} for i in range(nm)]
-    nd = 24 if tier == 'quick' else 300
+    nd = 34 if tier == 'quick' else 340
     out += [{'seed': seed, 'i': i, 'kind': 'directed', 'tier': tier} for i in range(nd)]
     return out
 
@@ -675,6 +675,25 @@ def _directed_child(payload):
             elif k == 'nl_overlap':
                 nests = NestsForNestedLogit(choice_set=alts, tuple_of_nests=(OneNestForNestedLogit(1.4, A + [B[0]], 'A'), OneNestForNestedLogit(1.1, B, 'B')))
                 out['names'] = [str(B[0])]
+            elif k == 'nl_overlap_nonadjacent':
+                # three or four nests; the alternative listed twice sits in two nests that are NOT neighbours in the tuple
+                pool = list(alts)
+                while len(pool) < 6:
+                    pool.append(max(pool) + 3)
+                V.update({a: ex.Variable('y') * 0.05 * a for a in pool if a not in V})
+                alts = pool
+                n_nests = rr.choice([3, 4])
+                groups = [[pool[i]] for i in range(n_nests)]
+                for a in pool[n_nests:]:
+                    rr.choice(groups).append(a)
+                i_, j_ = rr.choice([(0, 2), (0, n_nests - 1), (1, n_nests - 1)] if n_nests > 3 else [(0, 2)])
+                groups[j_].append(groups[i_][0])
+                order = list(range(n_nests))
+                if rr.random() < 0.5:
+                    order = [i_] + [q for q in order if q not in (i_, j_)] + [j_]
+                nests = NestsForNestedLogit(choice_set=alts, tuple_of_nests=tuple(
+                    OneNestForNestedLogit(1.2 + 0.1 * q, groups[q], f'N{q}') for q in order))
+                out['names'] = [str(groups[i_][0])]
             elif k == 'nl_outside':
                 nests = NestsForNestedLogit(choice_set=alts, tuple_of_nests=(OneNestForNestedLogit(1.4, A + [outside], 'A'),))
                 out['names'] = [str(outside)]
@@ -765,7 +784,7 @@ def _directed_child(payload):
     return out
 
 
-DIRECTED = ['nl_ok', 'nl_overlap', 'nl_outside', 'cnl_ok', 'cnl_outside', 'data_ok', 'data_nonnumeric', 'data_nan',
+DIRECTED = ['nl_ok', 'nl_overlap', 'nl_overlap_nonadjacent', 'nl_outside', 'cnl_ok', 'cnl_outside', 'data_ok', 'data_nonnumeric', 'data_nan',
             'data_empty', 'flags_ok', 'flags_hessian_without_gradient', 'flags_bhhh_without_gradient', 'panel_ok',
             'panel_variable_outside_trajectory', 'linutil_missing_value', 'linutil_missing_likelihood']
 
